@@ -73,8 +73,15 @@ def _fresh(interp, args, kwargs):
     raise Unsupported(f"fresh() of {v!r}")
 
 
+def _extern(name):
+    def f(interp, args, kwargs):
+        from . import contract as C
+        return C.EXTERNS[name](interp, args, kwargs)
+    return f
+
+
 SPEC_BUILTINS = {
-    "fresh": _fresh,
+    "fresh": _fresh, "split_off": _extern("split_off"),
     "all_in": _quant_in(True), "any_in": _quant_in(False),
     "replace_all": _replace_all,
     "same_keys": lambda interp, args, kwargs: _keys_rel(interp, args[0], args[1], None, "same"),
